@@ -2069,7 +2069,7 @@ V("C20", "keywords_before_positionals", "fire", "R20.c", (Z, "        arguments 
 V("C20", "benign_processed_check_as_block", "benign", None, (Z, "            if k in processed: continue\n", "            if k in processed:\n                continue\n"))
 
 # ======================================================================= round i rules
-V("C03", "precedence_truncated_to_int", "fire", "R03.t", (Z, "        if 'precedence' not in values:\n            values['precedence'] = 0", "        values['precedence'] = int(values.get('precedence') or 0)"))
+V("C03", "precedence_truncated_to_int", "fire", "R03.r", (Z, "        if 'precedence' not in values:\n            values['precedence'] = 0", "        values['precedence'] = int(values.get('precedence') or 0)"))
 V("C03", "benign_precedence_default_via_setdefault", "benign", None, (Z, "        if 'precedence' not in values:\n            values['precedence'] = 0", "        values.setdefault('precedence', 0)"))
 V("C03", "class_set_before_copy_installed", "fire", "R03.s", (Z, """                parameter = copy.copy(parameter)
                 parameter.owner = mcs
@@ -2111,7 +2111,7 @@ V("C08", "watcher_not_queued_after_first_event_of_parameter", "fire", "R08.u", (
             self_._events.append(event)
             if not repeat and not any(watcher is w for w in self_._state_watchers):"""))
 V("C09", "attribute_names_memoised_per_type", "fire", "R09.w", (R, "        extras = [d for d in dir(current) if not d.startswith('_')]", "        extras = _ATTRS.setdefault(type(current), [d for d in dir(current) if not d.startswith('_')])"), (R, "# When we only support python >= 3.11 we should exchange 'rx' with Self type annotation below.", "_ATTRS = {}\n# When we only support python >= 3.11 we should exchange 'rx' with Self type annotation below."))
-V("C10", "relink_skipped_when_reference_compares_equal", "fire", "R10.l", (Z, "        obj.param._update_ref(name, ref)\n\n    def _validate_value", "        if name in obj._param__private.refs and obj._param__private.refs[name] == ref:\n            return\n        obj.param._update_ref(name, ref)\n\n    def _validate_value"))
+V("C10", "relink_skipped_when_reference_compares_equal", "fire", "R10.p", (Z, "        obj.param._update_ref(name, ref)\n\n    def _validate_value", "        if name in obj._param__private.refs and obj._param__private.refs[name] == ref:\n            return\n        obj.param._update_ref(name, ref)\n\n    def _validate_value"))
 V("C10", "rx_value_setter_skips_identical_object", "fire", "R10.v", (R, "        self._reactive._wrapper.object = resolve_value(new)", "        new = resolve_value(new)\n        if new is self._reactive._wrapper.object:\n            return\n        self._reactive._wrapper.object = new"))
 V("C11", "allow_none_rewritten_after_merge", "fire", "R11.g", (Z, """        Can be overridden on subclasses to update a Parameter state, i.e. slot
         values, after the slot values have been set in the inheritance procedure.
